@@ -1,4 +1,7 @@
 import LinfaSpec.Proofs.DeterminismOrder
+import Mathlib.Data.List.Perm.Basic
+import Mathlib.Data.List.Nodup
+import Mathlib.Data.List.Induction
 
 /-!
 Helper lemmas for C20, text vocabularies: the `max_features` selection of `CountVectorizer` is a
@@ -97,6 +100,160 @@ theorem dfFilter_wordDf (minAbs maxAbs : Nat) (stop : List κ) (v : List (κ × 
   unfold dfFilter
   rw [List.filter_map]
   rfl
+
+/-! ### the raw vocabulary is a word count -/
+
+/-- `vocabStep` seen through `wordDf`: a word counter on (word, count) pairs -/
+def pStep (p : List (κ × Nat)) (w : κ) : List (κ × Nat) :=
+  if p.any (fun e => e.1 = w) then p.map (fun e => if e.1 = w then (e.1, e.2 + 1) else e)
+  else p ++ [(w, 1)]
+
+theorem vocabStep_wordDf (v : List (κ × Nat × Nat)) (w : κ) :
+    (vocabStep v w).map wordDf = pStep (v.map wordDf) w := by
+  unfold vocabStep pStep
+  have hany : (v.map wordDf).any (fun e => decide (e.1 = w)) = v.any (fun e => decide (e.1 = w)) := by
+    rw [List.any_map]; rfl
+  rw [hany]
+  split
+  · rw [List.map_map, List.map_map]
+    apply List.map_congr_left
+    intro e _
+    by_cases h : e.1 = w <;> simp [wordDf, h]
+  · simp [wordDf]
+
+theorem readDocument_wordDf (v : List (κ × Nat × Nat)) (d : List κ) :
+    (readDocument v d).map wordDf = d.foldl pStep (v.map wordDf) := by
+  unfold readDocument
+  induction d generalizing v with
+  | nil => rfl
+  | cons w ws ih => rw [List.foldl_cons, ih, vocabStep_wordDf, List.foldl_cons]
+
+theorem foldl_readDocument_wordDf (docs : List (List κ)) (v : List (κ × Nat × Nat)) :
+    (docs.foldl readDocument v).map wordDf = docs.flatten.foldl pStep (v.map wordDf) := by
+  induction docs generalizing v with
+  | nil => rfl
+  | cons d ds ih => rw [List.foldl_cons, ih, readDocument_wordDf, List.flatten_cons, List.foldl_append]
+
+/-- the raw vocabulary, seen through `wordDf`, is the word count of the concatenated document sets -/
+theorem buildVocabulary_wordDf (docs : List (List κ)) :
+    (buildVocabulary docs).map wordDf = docs.flatten.foldl pStep [] :=
+  foldl_readDocument_wordDf docs []
+
+def CountInv (p : List (κ × Nat)) (ws : List κ) : Prop :=
+  (p.map Prod.fst).Nodup ∧ ∀ x c, (x, c) ∈ p ↔ (c = ws.count x ∧ 0 < c)
+
+theorem count_snoc (ws : List κ) (w x : κ) :
+    (ws ++ [w]).count x = ws.count x + if x = w then 1 else 0 := by
+  rw [List.count_append, List.count_singleton]
+  by_cases h : x = w
+  · simp [h]
+  · have : ¬ w = x := fun h' => h h'.symm
+    simp [h, this]
+
+theorem pStep_inv {p : List (κ × Nat)} {ws : List κ} (h : CountInv p ws) (w : κ) :
+    CountInv (pStep p w) (ws ++ [w]) := by
+  obtain ⟨hk, hm⟩ := h
+  unfold pStep
+  split
+  next hany =>
+    rw [List.any_eq_true] at hany
+    obtain ⟨e0, he0, hw⟩ := hany
+    have hw : e0.1 = w := by simpa using hw
+    have hmem0 : (w, e0.2) ∈ p := by rw [← hw]; exact he0
+    have hc0 := (hm w e0.2).mp hmem0
+    constructor
+    · have : (p.map fun e => if e.1 = w then (e.1, e.2 + 1) else e).map Prod.fst = p.map Prod.fst := by
+        rw [List.map_map]
+        apply List.map_congr_left
+        intro e _
+        by_cases h : e.1 = w <;> simp [h]
+      rw [this]; exact hk
+    · intro x c
+      rw [List.mem_map, count_snoc]
+      constructor
+      · rintro ⟨e, he, hge⟩
+        have hce := (hm e.1 e.2).mp he
+        by_cases h : e.1 = w
+        · rw [if_pos h] at hge
+          have hx : e.1 = x := congrArg Prod.fst hge
+          have hc : e.2 + 1 = c := congrArg Prod.snd hge
+          have hxw : x = w := by rw [← hx]; exact h
+          rw [if_pos hxw, ← hc, hce.1, hx]
+          exact ⟨rfl, Nat.succ_pos _⟩
+        · rw [if_neg h] at hge
+          have hx : e.1 = x := congrArg Prod.fst hge
+          have hc : e.2 = c := congrArg Prod.snd hge
+          have hxw : ¬ x = w := by rw [← hx]; exact h
+          rw [if_neg hxw, ← hc, ← hx]
+          exact ⟨by simpa using hce.1, hce.2⟩
+      · rintro ⟨hc, hpos⟩
+        by_cases hxw : x = w
+        · rw [if_pos hxw] at hc
+          refine ⟨(w, e0.2), hmem0, ?_⟩
+          rw [if_pos rfl, hc, hxw, hc0.1]
+        · rw [if_neg hxw, Nat.add_zero] at hc
+          have : (x, c) ∈ p := (hm x c).mpr ⟨hc, hpos⟩
+          refine ⟨(x, c), this, ?_⟩
+          rw [if_neg hxw]
+  next hany =>
+    have hnot : ∀ e ∈ p, ¬ e.1 = w := by
+      intro e he hw
+      apply hany
+      rw [List.any_eq_true]
+      exact ⟨e, he, by simpa using hw⟩
+    have hcw : ws.count w = 0 := by
+      by_contra hne
+      have : (w, ws.count w) ∈ p := (hm w _).mpr ⟨rfl, Nat.pos_of_ne_zero hne⟩
+      exact hnot _ this rfl
+    constructor
+    · rw [List.map_append, List.map_cons, List.map_nil]
+      rw [List.nodup_append]
+      refine ⟨hk, List.nodup_singleton _, ?_⟩
+      intro a ha b hb
+      rw [List.mem_singleton] at hb
+      rw [List.mem_map] at ha
+      obtain ⟨e, he, hea⟩ := ha
+      rw [hb, ← hea]
+      exact hnot e he
+    · intro x c
+      rw [List.mem_append, List.mem_singleton, count_snoc]
+      constructor
+      · rintro (h | h)
+        · have hx : ¬ x = w := hnot (x, c) h
+          rw [if_neg hx, Nat.add_zero]
+          exact (hm x c).mp h
+        · have hx : x = w := congrArg Prod.fst h
+          have hc : c = 1 := congrArg Prod.snd h
+          rw [if_pos hx, hx, hcw, hc]
+          exact ⟨rfl, Nat.one_pos⟩
+      · rintro ⟨hc, hpos⟩
+        by_cases hxw : x = w
+        · rw [if_pos hxw, hxw, hcw] at hc
+          right
+          rw [hxw, hc]
+        · rw [if_neg hxw, Nat.add_zero] at hc
+          exact Or.inl ((hm x c).mpr ⟨hc, hpos⟩)
+
+theorem foldl_pStep_inv (ws : List κ) : CountInv (ws.foldl pStep []) ws := by
+  induction ws using List.reverseRecOn with
+  | nil => exact ⟨List.nodup_nil, fun x c => by simp⟩
+  | append_singleton ws w ih =>
+    rw [List.foldl_append, List.foldl_cons, List.foldl_nil]
+    exact pStep_inv ih w
+
+theorem foldl_pStep_perm {ws₁ ws₂ : List κ} (p : ws₁ ~ ws₂) :
+    ws₁.foldl pStep [] ~ ws₂.foldl pStep [] := by
+  obtain ⟨hk₁, hm₁⟩ := foldl_pStep_inv ws₁
+  obtain ⟨hk₂, hm₂⟩ := foldl_pStep_inv ws₂
+  rw [List.perm_ext_iff_of_nodup (List.Nodup.of_map _ hk₁) (List.Nodup.of_map _ hk₂)]
+  rintro ⟨x, c⟩
+  rw [hm₁, hm₂, p.count_eq]
+
+/-- **the raw vocabulary does not depend on the iteration orders of the per-document hash sets** -/
+theorem buildVocabulary_wordDf_perm {s₁ s₂ : List (List κ)} (h : List.Forall₂ (· ~ ·) s₁ s₂) :
+    (buildVocabulary s₁).map wordDf ~ (buildVocabulary s₂).map wordDf := by
+  rw [buildVocabulary_wordDf, buildVocabulary_wordDf]
+  exact foldl_pStep_perm (List.Perm.flatten_congr h)
 
 end Vocabulary
 
